@@ -47,29 +47,45 @@ def spec(name, argts, rett, unfold=None):
     return f
 
 
-def ground(e):
-    if is_var(e):
-        return False
-    if is_quantifier(e):
-        return False
-    return all(ground(c) for c in e.children())
+def ground(e, cache=None):
+    """no bound (de Bruijn) variable occurs in e; memoised per call on the AST id (ids are only unique among live terms, so
+    the cache must not outlive the formulas it was built for)"""
+    if cache is None:
+        cache = {}
+    k = e.get_id()
+    r = cache.get(k)
+    if r is None:
+        if is_var(e) or is_quantifier(e):
+            r = False
+        else:
+            r = all(ground(c, cache) for c in e.children())
+        cache[k] = r
+    return r
 
 
 def unfoldings(fmls, rounds=2, opaque=()):
     """fuel-1: for each ground application F(args) occurring in fmls (also under binders) add F's defining equation."""
     seen = set()
+    visited = set()
+    gcache = {}
+    keep = []           # keeps every visited term alive so that ids stay unique during this call
     out = []
 
     def walk(e):
         if not is_expr(e) or is_var(e):
             return
+        k = e.get_id()
+        if k in visited:
+            return
+        visited.add(k)
+        keep.append(e)
         if is_quantifier(e):
             walk(e.body())
             return
         if is_app(e):
             nm = e.decl().name()
-            if nm in SPEC and nm not in opaque and SPEC[nm]['unfold'] is not None and e.get_id() not in seen and ground(e):
-                seen.add(e.get_id())
+            if nm in SPEC and nm not in opaque and SPEC[nm]['unfold'] is not None and k not in seen and ground(e, gcache):
+                seen.add(k)
                 out.append(SPEC[nm]['unfold'](*e.children()))
             for c in e.children():
                 walk(c)
